@@ -192,6 +192,22 @@ def gen_config(d: Draw, idx):
             layer['slices'] = d.pick([5, 12, 30])
         cfg['layers'][lname] = layer
         prev = f
+    if d.chance(1, 6):
+        # lengths written as whole numbers (`radius = 600000` in a TOML file is an int): a valid configuration like any other
+        ints = [int(round(R * f)) for f in fracs]
+        if all(b_ - a_ >= 10 for a_, b_ in zip([0] + ints[:-1], ints)):
+            cfg['radius'] = ints[-1]
+            lo_i = 0
+            for i, ri in enumerate(ints):
+                layer = cfg['layers']['L%d' % i]
+                if layer.get('radius') is not None:
+                    layer['radius'] = ri
+                if layer.get('thickness') is not None:
+                    layer['thickness'] = ri - lo_i
+                lo_i = ri
+            R = float(ints[-1])
+            fracs = [ri / R for ri in ints]
+            cfg['_int_lengths'] = True
     cfg['_mass_given'] = False
     if d.chance(1, 4):
         # explicit world mass (then layer masses need not add up to it)
